@@ -135,9 +135,10 @@ type Item struct {
 }
 
 type Set struct {
-	Pkg   *Pkg
-	Name  string
-	Items []*Item
+	Pkg     *Pkg
+	Name    string
+	Items   []*Item
+	AliasOf *Set // rendered as `var Name = <AliasOf>` (Items must be the single reference to it)
 }
 
 type Param struct {
